@@ -44,6 +44,8 @@ PARENT = {
     'IndexError': 'LookupError', 'KeyError': 'LookupError', 'LookupError': 'Exception', 'ValueError': 'Exception',
     'TypeError': 'Exception', 'NotImplementedError': 'RuntimeError', 'Exception': 'BaseException',
     'Warning': 'Exception',
+    'UnicodeDecodeError': 'UnicodeError', 'UnicodeEncodeError': 'UnicodeError', 'UnicodeTranslateError': 'UnicodeError',
+    'UnicodeError': 'ValueError', 'OverflowError': 'ArithmeticError', 'ArithmeticError': 'Exception',
 }
 ALIASES = {'IOError': 'OSError', 'EnvironmentError': 'OSError'}
 
@@ -462,6 +464,16 @@ def cache_4(ctx, rep, roles):
         # write-to-temporary-then-rename: new content in a 'wb' file that is then moved onto the pickle path
         ok = len(moved) == 1 and len(opens_w) == 1 and mode_of(opens_w[0]) == 'wb'
         why = 'the writer neither truncates the pickle nor moves a freshly written file onto it'
+        if ok:
+            # the temporary is private to this entry: created by tempfile / a random name, or named after the whole pickle
+            # path (which is an injective function of grammar and source path).  A name shared by two entries
+            # (<dir>/<pid>.tmp) lets two writers of one process fill each other's file before the rename.
+            src = moved[0].args[0]
+            private, why_not = _temp_is_private(sv, src, is_pickle_path)
+            rep.ob('CACHE-4', CACHE, sv.qual, 'the temporary moved onto the pickle is private to the entry', private,
+                   'the name of the temporary file (%s) does not determine the entry it is written for%s: two entries saved at '
+                   'the same time (two threads) write into one temporary and one of them is renamed onto the other\'s pickle '
+                   'with a fresh mtime' % (norm(src), why_not))
     rep.ob('CACHE-4', CACHE, sv.qual, "pickle written as new content ('wb' on the pickle path, or a 'wb' temporary moved onto it)", ok, why)
     # the reader itself, or the module-level helpers it hands the pickle path to
     readers = [ld]
@@ -472,6 +484,57 @@ def cache_4(ctx, rep, roles):
     opens_r = [n for r in readers for n in walk_own(r.node) if isinstance(n, ast.Call) and norm(n.func) == 'open']
     ok = len(opens_r) == 1 and len(opens_r[0].args) > 1 and isinstance(opens_r[0].args[1], ast.Constant) and opens_r[0].args[1].value == 'rb'
     rep.ob('CACHE-4', CACHE, ld.qual, "open(<pickle path>, 'rb')", ok, 'the reader does not open the pickle for binary read')
+
+
+_UNIQUE_NAME_CALLS = {'tempfile.mkstemp', 'mkstemp', 'tempfile.NamedTemporaryFile', 'NamedTemporaryFile', 'tempfile.mktemp',
+                      'uuid.uuid4', 'uuid4', 'uuid.uuid1', 'secrets.token_hex', 'token_hex', 'os.urandom'}
+_NAME_KEEPING_CALLS = {'str', 'os.fspath', 'fspath', 'os.path.join', 'Path', 'pathlib.Path', 'os.path.abspath', 'format'}
+
+
+def _temp_is_private(f, e, is_pickle_path, depth=0):
+    """(bool, explanation): does the expression name a file that only this entry's writer uses?"""
+    from ..model import reaching_values
+    if depth > 4:
+        return False, ''
+    if isinstance(e, ast.Name):
+        vals = reaching_values(f.node, e)
+        if not vals:
+            # tuple targets: fd, name = mkstemp(...)
+            for a in walk_own(f.node):
+                if isinstance(a, ast.Assign) and isinstance(a.targets[0], ast.Tuple) and any(
+                        isinstance(t, ast.Name) and t.id == e.id for t in a.targets[0].elts):
+                    vals.append(a.value)
+        if not vals:
+            return False, ''
+        res = [_temp_is_private(f, v, is_pickle_path, depth + 1) for v in vals]
+        return all(r[0] for r in res), next((r[1] for r in res if not r[0]), '')
+    # unique by construction
+    for c in ast.walk(e):
+        if isinstance(c, ast.Call) and norm(c.func) in _UNIQUE_NAME_CALLS:
+            return True, ''
+        if isinstance(c, ast.Attribute) and c.attr == 'name' and isinstance(c.value, ast.Name):
+            ok, _ = _temp_is_private(f, c.value, is_pickle_path, depth + 1)
+            if ok:
+                return True, ''
+    # contains the whole pickle path, not only a part of it
+    def whole(x, lossy):
+        if is_pickle_path(x):
+            return not lossy
+        if isinstance(x, ast.Call):
+            keep = norm(x.func) in _NAME_KEEPING_CALLS or (isinstance(x.func, ast.Attribute) and x.func.attr in ('format', 'with_suffix', 'with_name', '__add__'))
+            parts = list(x.args) + [k.value for k in x.keywords] + ([x.func.value] if isinstance(x.func, ast.Attribute) else [])
+            return any(whole(a, lossy or not keep) for a in parts)
+        if isinstance(x, ast.BinOp) and isinstance(x.op, (ast.Add, ast.Mod)):
+            return whole(x.left, lossy) or whole(x.right, lossy)
+        if isinstance(x, (ast.Tuple, ast.List)):
+            return any(whole(a, lossy) for a in x.elts)
+        if isinstance(x, ast.JoinedStr):
+            return any(whole(v.value, lossy) for v in x.values if isinstance(v, ast.FormattedValue))
+        return False
+    if whole(e, False):
+        return True, ''
+    parts = sorted({norm(c.func) for c in ast.walk(e) if isinstance(c, ast.Call)})
+    return False, ' (built from %s)' % ', '.join(parts) if parts else ''
 
 
 def _fresh_form(e, roles, f):
@@ -740,3 +803,122 @@ def cache_6_7(ctx, rep):
                'an entry is removed by %s: loading an entry only updates its access time, an entry in use can be deleted'
                % (sorted(stamps) or 'something else than its access time'))
     rep.minimum('CACHE-7', 1)
+
+
+# ---------------------------------------------------------------------------
+# CACHE-8: cache files are never memory-mapped
+# ---------------------------------------------------------------------------
+def _mmap_sites(tree):
+    out = []
+    for n in ast.walk(tree):
+        if isinstance(n, ast.Call) and (norm(n.func) in ('mmap.mmap', 'mmap') or (isinstance(n.func, ast.Attribute) and n.func.attr in ('memmap', 'mmap'))):
+            out.append(n)
+    return out
+
+
+def cache_8(ctx, rep):
+    rep.rule('CACHE-8', 'cache files are read and written through file objects, never memory-mapped: another process truncating '
+                        'the file (every save opens it with "wb") turns an access to a mapped page into SIGBUS, which is not an '
+                        'exception and cannot become a cache miss')
+    probe = ast.parse("with mmap.mmap(f.fileno(), 0, access=mmap.ACCESS_READ) as d:\n    x = pickle.loads(d)\n")
+    if len(_mmap_sites(probe)) != 1:
+        raise AnalysisError('CACHE-8: the matcher does not report its built-in example')
+    n = 0
+    for rel, mod in sorted(ctx.prog.mods.items()):
+        imported = any(isinstance(st, (ast.Import, ast.ImportFrom)) and 'mmap' in norm(st) for st in ast.walk(mod.tree))
+        sites = _mmap_sites(mod.tree)
+        n += 1
+        rep.ob('CACHE-8', rel, '<module>', 'no memory mapping of files', not sites and not imported,
+               'the module maps a file into memory (%s)' % (norm(sites[0]) if sites else 'import mmap'),
+               witness=norm(sites[0]) if sites else None)
+    rep.minimum('CACHE-8', 5)
+
+
+# ---------------------------------------------------------------------------
+# EXC-3: the codec probes of the string checks cannot raise out of the error listing
+# ---------------------------------------------------------------------------
+CODEC_MAY_RAISE = {
+    # unicode_escape_decode first encodes a str argument to UTF-8: a lone surrogate gives UnicodeEncodeError
+    'codecs.unicode_escape_decode': ['UnicodeDecodeError', 'UnicodeEncodeError'],
+    'codecs.escape_decode': ['ValueError'],
+    'codecs.raw_unicode_escape_decode': ['UnicodeDecodeError', 'UnicodeEncodeError'],
+    'codecs.decode': ['ValueError', 'LookupError'],
+    'codecs.encode': ['ValueError', 'LookupError'],
+    'unicodedata.lookup': ['KeyError'],
+    'ast.literal_eval': ['ValueError', 'SyntaxError', 'MemoryError', 'RecursionError'],
+}
+
+
+def exc_3(ctx, rep, modules=('parso/python/errors.py',)):
+    rep.rule('EXC-3', 'every exception class a codec probe can raise on text taken from the source (escape decoding of string '
+                      'literals) is caught where the probe is made, or around every call of the helper that makes it')
+    from ..model import reaching_values
+    prog = ctx.prog
+    n_sites = 0
+
+    def callee_names(f, call):
+        fn = call.func
+        if isinstance(fn, ast.Attribute):
+            return [norm(fn)]
+        if isinstance(fn, ast.Name):
+            vals = reaching_values(f.node, fn)
+            out = []
+            for v in vals:
+                if isinstance(v, ast.IfExp):
+                    out += [norm(v.body), norm(v.orelse)]
+                else:
+                    out.append(norm(v))
+            # from-imports: `from codecs import escape_decode`
+            if not vals:
+                t = prog.resolve_global(f.mod, fn.id) if hasattr(prog, 'resolve_global') else None
+                out.append(fn.id if t is None else norm(fn))
+                for st in f.mod.tree.body:
+                    if isinstance(st, ast.ImportFrom) and st.module in ('codecs', 'unicodedata', 'ast'):
+                        for a in st.names:
+                            if (a.asname or a.name) == fn.id:
+                                out.append('%s.%s' % (st.module, a.name))
+            return out
+        return []
+
+    def uncaught(f, node, classes):
+        left = []
+        for r in classes:
+            if not any(any(is_subclass(r, h) for h in hs) for hs in _protecting_handlers(node, f.node)):
+                left.append(r)
+        return left
+
+    for f in sorted(prog.funcs.values(), key=lambda f: f.key):
+        if f.mod.rel not in modules:
+            continue
+        for n in walk_own(f.node):
+            if not isinstance(n, ast.Call):
+                continue
+            raised = []
+            for name in callee_names(f, n):
+                raised += CODEC_MAY_RAISE.get(name, [])
+            if not raised:
+                continue
+            n_sites += 1
+            left = uncaught(f, n, sorted(set(raised)))
+            where = ''
+            if left and f.cls is not None:
+                # a helper: every call of it inside the class must sit in a try that covers what is left
+                calls = []
+                for g in f.cls.methods.values():
+                    for c in walk_own(g.node):
+                        if isinstance(c, ast.Call) and isinstance(c.func, ast.Attribute) and c.func.attr == f.name \
+                                and isinstance(c.func.value, ast.Name) and c.func.value.id == 'self':
+                            calls.append((g, c))
+                if calls and f.name not in ('is_issue', 'feed_node', 'visit_leaf', 'visit_node'):
+                    still = set()
+                    for g, c in calls:
+                        still |= set(uncaught(g, c, left))
+                    left = sorted(still)
+                    where = ' (nor around the calls of %s)' % f.name
+            rep.ob('EXC-3', f.mod.rel, f.qual, 'codec probe %s' % norm(n), not left,
+                   '%s can be raised here and is not caught%s: the error listing fails instead of reporting an issue '
+                   '(e.g. a lone surrogate in a string literal makes unicode_escape_decode raise UnicodeEncodeError)'
+                   % (', '.join(left), where), witness=left[0] if left else None)
+    if not n_sites:
+        raise AnalysisError('EXC-3: no codec probe found in %s' % (modules,))
+    rep.stat('exc3_codec_probe_sites', n_sites)
